@@ -141,7 +141,8 @@ func (g *cg) tokens(lo, hi int) []*node {
 	return out
 }
 
-func (g *cg) pullAPI(needToken bool) *node {
+func (g *cg) pullAPI(pulls bool) *node {
+	needToken := true
 	var ks []*node
 	if g.pct(60, "pa-listen") {
 		ks = append(ks, st("listen", g.v(kListen)))
@@ -166,6 +167,9 @@ func (g *cg) pullAPI(needToken bool) *node {
 	}
 	if g.pct(20, "pa-tls") {
 		ks = append(ks, g.tlsBlock())
+	}
+	if (pulls && g.pct(20, "pa-grpc")) || g.bad(10, "pa-grpc-nopull") {
+		ks = append(ks, st("grpc_listen", g.v(kListen)))
 	}
 	lo := 0
 	if needToken && !g.bad(25, "pa-notoken") {
@@ -368,11 +372,18 @@ func (g *cg) secretsBlock() *node {
 			ss = append(ss, st("valid_from", g.spell(g.pick("from", "2025-01-01T00:00:00Z", "2024-06-01T00:00:00+02:00"), nil)))
 		}
 		if g.pct(40, "sec-until") {
-			ss = append(ss, st("valid_until", g.spell(g.pick("until", "2027-01-01T00:00:00Z", "2026-06-01T12:00:00.5Z", "2020-01-01T00:00:00Z"), nil)))
+			ss = append(ss, st("valid_until", g.spell(g.untilValue(), nil)))
 		}
 		ks = append(ks, blk(g.shuffle(ss), "secret", spelled))
 	}
 	return blk(ks, "secrets")
+}
+
+func (g *cg) untilValue() string {
+	if g.bad(30, "until-before-from") {
+		return "2020-01-01T00:00:00Z"
+	}
+	return g.pick("until", "2027-01-01T00:00:00Z", "2026-06-01T12:00:00.5Z", "2030-12-31T23:59:59+01:00")
 }
 
 func (g *cg) matchBody() []*node {
@@ -401,7 +412,10 @@ func (g *cg) hmacSecretOrRef() (kw string, val string) {
 		if g.bad(15, "dangling-ref") {
 			id = "missing"
 		}
-		return "secret_ref", g.spell(id, stopHMAC)
+		if !g.usedRefs[id] || g.bad(30, "dup-ref") {
+			g.usedRefs[id] = true
+			return "secret_ref", g.spell(id, stopHMAC)
+		}
 	}
 	return "secret", g.vs(kSecretRef, stopHMAC)
 }
@@ -440,7 +454,11 @@ func (g *cg) authNodes() []*node {
 		}
 	case 3: // hmac block
 		var hs []*node
-		for i, n := 0, g.n("n-hmacb", 0, 3); i < n; i++ {
+		lo := 1
+		if g.bad(30, "hmac-nosecret") {
+			lo = 0
+		}
+		for i, n := 0, g.n("n-hmacb", lo, 3); i < n; i++ {
 			kw, val := g.hmacSecretOrRef()
 			if g.pct(30, "hmac-two") {
 				_, val2 := g.hmacSecretOrRef()
@@ -530,6 +548,7 @@ func (g *cg) deliverNode() *node {
 
 // route builds one route block; chanType "" = bare.
 func (g *cg) route(chanType string, paths *[]string) *node {
+	g.usedRefs = map[string]bool{}
 	path := g.sem(kPath)
 	if len(*paths) > 0 && g.bad(8, "dup-path") {
 		path = (*paths)[0]
@@ -577,7 +596,8 @@ func (g *cg) route(chanType string, paths *[]string) *node {
 		}
 	}
 	ks = append(ks, g.simple([]ds{{"max_body", kSize}, {"max_headers", kSize}}, 20)...)
-	switch g.n("publish", 0, 5) {
+	pubMix := false
+	switch g.n("publish", 0, 6) {
 	case 1:
 		ks = append(ks, st("publish", g.v(kBool)))
 	case 2:
@@ -590,6 +610,10 @@ func (g *cg) route(chanType string, paths *[]string) *node {
 		}
 	case 4:
 		ks = append(ks, st("publish.managed", g.v(kBool)))
+	case 5: // block without `enabled` followed by dot notation (accepted by the parser; not shuffled apart)
+		ps := g.simple([]ds{{"managed", kBool}}, 50)
+		ks = append(ks, &node{head: []string{"publish"}, block: true, kids: ps}, st("publish.direct", g.v(kBool)))
+		pubMix = true
 	}
 	if g.backend != "sqlite" || g.pct(30, "queue") {
 		be := g.v(kBackend)
@@ -625,6 +649,9 @@ func (g *cg) route(chanType string, paths *[]string) *node {
 	if g.bad(5, "empty-route") {
 		ks = nil
 	}
+	if pubMix { // `publish.direct` before `publish { }` is a parse error: keep the order
+		return blk(ks, pathTok)
+	}
 	return blk(g.shuffle(ks), pathTok)
 }
 
@@ -635,6 +662,7 @@ func (g *cg) namedMatcher(names *[]string) *node {
 }
 
 func (g *cg) varsBlock() *node {
+	g.useVars = false // no further {vars.N} registrations while the block itself is written
 	var ks []*node
 	for _, v := range g.vars {
 		ks = append(ks, st(g.spell(v[0], nil), v[1]))
@@ -660,6 +688,7 @@ func (g *cg) varsBlock() *node {
 func (g *cg) program() string {
 	g.backend = g.pick("backend", "sqlite", "sqlite", "memory", "postgres")
 	g.useVars = g.pct(30, "usevars")
+	g.dens = g.pick2("density", 100, 60, 30)
 	var top []*node
 
 	if g.pct(35, "secrets") {
@@ -694,8 +723,9 @@ func (g *cg) program() string {
 					}
 					refs = append(refs, []string{"@" + nm})
 				}
-				r.kids = append(r.kids, g.multi([]string{"match"}, refs)...)
-				r.kids = g.shuffle(r.kids)
+				at := g.n("refpos", 0, len(r.kids))
+				ins := g.multi([]string{"match"}, refs)
+				r.kids = append(r.kids[:at:at], append(ins, r.kids[at:]...)...)
 			}
 			for _, k := range r.kids {
 				if len(k.head) > 0 && k.head[0] == "pull" {
@@ -714,7 +744,11 @@ func (g *cg) program() string {
 			routeNodes = append(routeNodes, r)
 		default: // wrapper with 0..3 routes
 			var rs []*node
-			for i, n := 0, g.n("n-wrapped", 0, 3); i < n; i++ {
+			lo := 1
+			if g.pct(15, "empty-wrapper") {
+				lo = 0
+			}
+			for i, n := 0, g.n("n-wrapped", lo, 3); i < n; i++ {
 				rs = append(rs, mk())
 			}
 			if len(rs) == 0 {
@@ -729,7 +763,7 @@ func (g *cg) program() string {
 		top = append(top, g.ingress())
 	}
 	if pulls && !g.bad(20, "no-pullapi") || g.pct(25, "pullapi-anyway") {
-		top = append(top, g.pullAPI(true))
+		top = append(top, g.pullAPI(pulls))
 	}
 	if g.pct(35, "adminapi") {
 		top = append(top, g.adminAPI())
@@ -764,6 +798,7 @@ func (g *cg) program() string {
 	// the formatter must preserve whatever order the text has).
 	top = g.shuffle(top)
 
+	g.dens = 100
 	l := &layout{g: g, unit: g.pick("indent", "  ", "\t", "    ", "", " "), messy: g.pct(35, "messy"), cmts: g.pct(45, "comments"), oneln: g.pick2("oneline-pct", 0, 15, 60)}
 	if l.cmts && g.pct(50, "preamble") {
 		for i, n := 0, g.n("n-preamble", 1, 3); i < n; i++ {
@@ -804,7 +839,7 @@ func (g *cg) pick2(label string, xs ...int) int { return rapid.SampledFrom(xs).D
 func genCfgCase() *rapid.Generator[CfgCase] {
 	return rapid.Custom(func(t *rapid.T) CfgCase {
 		g := &cg{t: t, env: map[string]string{}, files: map[string]string{}}
-		g.invalid = rapid.IntRange(0, 99).Draw(t, "mode") >= 70
+		g.invalid = g.pct(30, "mode")
 		src := g.program()
 		c := CfgCase{Src: src}
 		if len(g.env) > 0 {
